@@ -90,7 +90,7 @@ func (p *Prog) objName(obj *types.Func) string {
 
 func loadProg(dir string, cs *ContractSet) (*Prog, error) {
 	cfg := &packages.Config{
-		Mode:       packages.LoadAllSyntax,
+		Mode:       packages.LoadAllSyntax | packages.NeedModule,
 		Dir:        dir,
 		BuildFlags: []string{"-tags=verif"},
 		Env:        append(os.Environ(), "GOFLAGS=-mod=mod", "GOPROXY=off", "GOSUMDB=off", "GOTOOLCHAIN=local"),
@@ -135,6 +135,14 @@ func loadProg(dir string, cs *ContractSet) (*Prog, error) {
 		for _, f := range pk.GoFiles {
 			if filepath.Base(f) == "contracts_verif.go" && !seen[f] {
 				seen[f] = true
+				if os.Getenv("VERIF_PREFER_MIRROR") != "" {
+					// development: /verif/contracts wins when it has this file
+					if rel, err := filepath.Rel(repoRoot(), f); err == nil {
+						if _, err := os.Stat(filepath.Join(verifRoot(), "contracts", rel)); err == nil {
+							continue
+						}
+					}
+				}
 				if err := cs.loadFile(f); err != nil {
 					return p, err
 				}
